@@ -80,4 +80,14 @@ namespace cocls {
 }
 
 
+
+/* Verification hook (inactive unless -DCOCLS_VERIF): named synchronisation points at which a replay harness can force a schedule.
+ * With the guard off the macro expands to nothing. */
+#ifdef COCLS_VERIF
+extern "C" void cocls_verif_sync(const char *tag);
+#define COCLS_VERIF_SYNC(tag) ::cocls_verif_sync(tag)
+#else
+#define COCLS_VERIF_SYNC(tag)
+#endif
+
 #endif /* SRC_cocls_COMMON_H_ */
